@@ -177,6 +177,9 @@ class C06(Prop):
                 bad = ('one line per call', '%d lines' % len(lines))
             else:
                 for i, (op, ln) in enumerate(zip(ops, lines)):
+                    if 'RUST-PANIC' in ln:
+                        bad = ('every call returns a value or an error (step %d)' % i, ln[:200])
+                        break
                     f = dict(x.split('=', 1) for x in ln.split(' ')[3:] if '=' in x)
                     if op[0] == 7:
                         com += pyhttp.serialize(pyhttp.build(op[1]))
@@ -192,7 +195,10 @@ class C06(Prop):
                                 break
                             want_p = '0'
                         else:
-                            off = bytes.fromhex(f.get('off', 'none').replace('none', ''))
+                            try:
+                                off = bytes.fromhex(f.get('off', 'none').replace('none', ''))
+                            except ValueError:
+                                off = b''
                             if not off or not unsent.startswith(off):
                                 bad = ('the slice offered is the next unsent bytes (step %d)' % i, ln[:200])
                                 break
